@@ -67,6 +67,7 @@ class Contract:
         self.max_paths = d.get('max_paths', 4000)
         self.constructs = d.get('constructs', False)  # __init__ contracts: at modular call sites the new object is a fresh symbolic object
         self.effect = d.get('effect')                 # trusted summaries only: fn(ip, argmap) ghost/event code run at modular call sites after the havoc
+        self.loops_optional = d.get('loops_optional', False)
         self.finish = d.get('finish')                 # fn(ip, env) ghost code run at exit before clauses
         self.doc = (cls.__doc__ or '').strip()
         self._loop_nodes = None
@@ -82,6 +83,8 @@ class Contract:
         self._loop_map = {}
         for k, spec in self.loops.items():
             if k >= len(loops):
+                if self.loops_optional:
+                    continue        # the function may have lost its loop: the remaining clauses are still checked
                 raise Unsupported('loop ordinal %d of %s does not exist (source changed?)' % (k, self.qualname))
             self._loop_map[id(loops[k])] = spec
         self.n_loops = len(loops)
